@@ -35,7 +35,11 @@ def check(world, ob, timeout_ms=5000, depth=2, use_cvc5=True, cvc5_timeout_s=10,
     if z3.is_true(ob.goal):
         return dict(result='proved', backend='z3-simplify', time=0.0, model=None, z3model=None, n_axioms=0)
     base = list(ob.assumptions) + [z3.Not(ob.goal)]
-    axioms = world.close(base, depth=depth)
+    try:
+        axioms = world.close(base, depth=depth)
+    except Exception as ex:     # a spec function that cannot be unfolded: the obligation stays undecided (never a violation)
+        return dict(result='unknown', backend=None, time=round(time.time() - t0, 4), model=[f'unfolding failed: {type(ex).__name__}: {ex}'],
+                    z3model=None, n_axioms=0)
     res = 'unknown'
     backend = None
     model_lines = None
@@ -83,10 +87,24 @@ def check(world, ob, timeout_ms=5000, depth=2, use_cvc5=True, cvc5_timeout_s=10,
                 res, backend, depth_used = 'proved', f'z3-{z3.get_version_string()}', d
                 break
             if r2 == z3.sat:
-                res, backend, depth_used = 'refuted', f'z3-{z3.get_version_string()}', d
-                model = s2.model()
-                model_lines = [f'(counter-model found with spec functions unfolded to depth {d})'] + model_to_text(model)
-                break
+                # a model of the smaller query refutes the obligation only if it also satisfies every definitional axiom of
+                # the full query (evaluated in the model, with completion); otherwise it may be an artefact of the missing
+                # definitions and the obligation stays undecided
+                m2 = s2.model()
+                ok = True
+                for a in axioms:
+                    try:
+                        if not z3.is_true(m2.eval(a, model_completion=True)):
+                            ok = False
+                            break
+                    except z3.Z3Exception:
+                        ok = False
+                        break
+                if ok:
+                    res, backend, depth_used = 'refuted', f'z3-{z3.get_version_string()}', d
+                    model = m2
+                    model_lines = [f'(counter-model found at unfolding depth {d} and validated against all {len(axioms)} axioms of depth {depth})'] + model_to_text(model)
+                    break
     if res == 'unknown' and use_cvc5 and os.path.exists(CVC5):
         try:
             smt2 = s.to_smt2()
